@@ -76,3 +76,72 @@ Proof.
   intros Hc. unfold in_circumcircle. rewrite Hc. cbn [fst]. cbn.
   change (1 / 1000000000000) with reps. unfold d2. rewrite Rleb_true. reflexivity.
 Qed.
+
+(* ---- the super triangle contains every vertex (strictly), for any point set of positive extent *)
+Lemma fold_min_le (l : list RV2) (a : RV2) :
+  vx (fold_left (@v2min ROps) l a) <= vx a /\ vy (fold_left (@v2min ROps) l a) <= vy a /\
+  forall v, In v l -> vx (fold_left (@v2min ROps) l a) <= vx v /\ vy (fold_left (@v2min ROps) l a) <= vy v.
+Proof.
+  revert a; induction l as [|x l IH]; intros a; cbn [fold_left]; [split; [lra | split; [lra | intros ? []]]|].
+  destruct (IH (v2min a x)) as (H1 & H2 & H3). unfold v2min in *; cbn [vx vy] in *.
+  change (omin ROps) with Rmin in *.
+  pose proof (Rmin_l (vx a) (vx x)). pose proof (Rmin_r (vx a) (vx x)).
+  pose proof (Rmin_l (vy a) (vy x)). pose proof (Rmin_r (vy a) (vy x)).
+  split; [lra|]. split; [lra|]. intros v [<-|Hv]; [split; lra | apply H3, Hv].
+Qed.
+Lemma fold_max_ge (l : list RV2) (a : RV2) :
+  vx a <= vx (fold_left (@v2max ROps) l a) /\ vy a <= vy (fold_left (@v2max ROps) l a) /\
+  forall v, In v l -> vx v <= vx (fold_left (@v2max ROps) l a) /\ vy v <= vy (fold_left (@v2max ROps) l a).
+Proof.
+  revert a; induction l as [|x l IH]; intros a; cbn [fold_left]; [split; [lra | split; [lra | intros ? []]]|].
+  destruct (IH (v2max a x)) as (H1 & H2 & H3). unfold v2max in *; cbn [vx vy] in *.
+  change (omax ROps) with Rmax in *.
+  pose proof (Rmax_l (vx a) (vx x)). pose proof (Rmax_r (vx a) (vx x)).
+  pose proof (Rmax_l (vy a) (vy x)). pose proof (Rmax_r (vy a) (vy x)).
+  split; [lra|]. split; [lra|]. intros v [<-|Hv]; [split; lra | apply H3, Hv].
+Qed.
+
+(* signed area test: v strictly to the left of a -> b *)
+Definition left_of (a b v : RV2) : Prop := 0 < (vx b - vx a) * (vy v - vy a) - (vy b - vy a) * (vx v - vx a).
+
+Theorem supertriangle_contains (vs : list RV2) :
+  (exists u w, In u vs /\ In w vs /\ (vx u <> vx w \/ vy u <> vy w)) ->
+  let '(p0, p1, p2) := @super_triangle ROps vs in
+  forall v, In v vs -> left_of p0 p2 v /\ left_of p2 p1 v /\ left_of p1 p0 v.
+Proof.
+  intros (u & w & Hu & Hw & Hne). unfold super_triangle.
+  set (mn := @Mat.v2set_min ROps vs). set (mx := @Mat.v2set_max ROps vs).
+  assert (Hmn : forall v, In v vs -> vx mn <= vx v /\ vy mn <= vy v).
+  { intros v Hv. unfold mn, Mat.v2set_min. destruct (fold_min_le vs (hd v2zero vs)) as (_ & _ & H). apply H, Hv. }
+  assert (Hmx : forall v, In v vs -> vx v <= vx mx /\ vy v <= vy mx).
+  { intros v Hv. unfold mx, Mat.v2set_max. destruct (fold_max_ge vs (hd v2zero vs)) as (_ & _ & H). apply H, Hv. }
+  clearbody mn mx. cbn.
+  set (sx := vx mx - vx mn). set (sy := vy mx - vy mn).
+  assert (Hs : 0 <= sx /\ 0 <= sy /\ 0 < Rmax sx sy).
+  { destruct (Hmn u Hu), (Hmx u Hu), (Hmn w Hw), (Hmx w Hw). unfold sx, sy.
+    pose proof (Rmax_l (vx mx - vx mn) (vy mx - vy mn)). pose proof (Rmax_r (vx mx - vx mn) (vy mx - vy mn)).
+    split; [lra | split; [lra |]]. destruct Hne as [N|N].
+    - assert (vx u < vx w \/ vx w < vx u) as [?|?] by lra; lra.
+    - assert (vy u < vy w \/ vy w < vy u) as [?|?] by lra; lra. }
+  destruct Hs as (Hsx & Hsy & Hm). set (m := Rmax sx sy) in *.
+  assert (Hmx' : sx <= m) by apply Rmax_l. assert (Hmy' : sy <= m) by apply Rmax_r.
+  intros v Hv. destruct (Hmn v Hv) as [A1 A2]. destruct (Hmx v Hv) as [B1 B2].
+  unfold left_of; cbn. unfold sx, sy in *.
+  set (k := m * (1 + 1) * 4096) in *.
+  assert (Hk : 8192 * m = k) by (unfold k; ring).
+  set (cx := vx mn + (vx mx - vx mn) * (1 / (1 + 1))) in *.
+  set (cy := vy mn + (vy mx - vy mn) * (1 / (1 + 1))) in *.
+  assert (Cx : - m <= vx v - cx <= m) by (unfold cx; lra).
+  assert (Cy : - m <= vy v - cy <= m) by (unfold cy; lra).
+  set (dx := vx v - cx) in *. set (dy := vy v - cy) in *.
+  replace (vx v) with (cx + dx) by (unfold dx; ring). replace (vy v) with (cy + dy) by (unfold dy; ring).
+  assert (K : 0 < k) by lra.
+  assert (Km : k = 8192 * m) by lra.
+  split; [|split].
+  - match goal with |- 0 < ?e => replace e with (2 * k * (dy + k)) by ring end.
+    apply Rmult_lt_0_compat; lra.
+  - match goal with |- 0 < ?e => replace e with (k * (k - dy - 2 * dx)) by ring end.
+    apply Rmult_lt_0_compat; lra.
+  - match goal with |- 0 < ?e => replace e with (k * (k - dy + 2 * dx)) by ring end.
+    apply Rmult_lt_0_compat; lra.
+Qed.
